@@ -5,6 +5,7 @@ import eslot
 import eslotmodel
 import eidx
 import eslab
+import eslabmodel
 import eswap
 import ewho
 import witness
@@ -137,6 +138,11 @@ def run(ctx):
                 "inside the page; Page::page_ptr masks any address of the page to its base.")
     nsl = eslab.run(ctx, F)
     ctx.floor("E-SLAB.page", "interpreted slab page situations", nsl, 4)
+    ctx.explain("E-SLAB.model: PageList::new / get_slot and Page::free_slot of the pointer-based store's slab allocator interpreted with integer "
+                "addresses and a memory of slot links and page headers: 30 allocations return distinct slots inside allocated, chained "
+                "pages; freed slots are reused last-in first-out; no slot in use is ever handed out.")
+    nsm2 = eslabmodel.run(ctx, F)
+    ctx.floor("E-SLAB.model", "interpreted slab allocations", nsm2, 35)
     ctx.explain("E-FREELIST.sentinel: every constant that meets a free-list head (Cell::set / replace, pop().unwrap_or, comparisons) is "
                 "the end-of-list marker 0. E-FREELIST.countsign: the shared node count receives deltas by addition; subtractions are "
                 "`-= 1` only.")
